@@ -32,7 +32,7 @@ def run(ctx):
     ctx.trusted = TRUSTED
     # coqc of the theorem file (~30 s: 30 Print Assumptions) runs while the real code is exercised
     import threading
-    coq_thread = threading.Thread(target=ctx.coq_file, args=(os.path.join(C.COQ, "props", "C12.v"),))
+    coq_thread = threading.Thread(target=K.coq_obligations, args=(ctx, "C12"))
     coq_thread.start()
     try:
         bad = C.hygiene()
@@ -51,10 +51,10 @@ def run(ctx):
         from concurrent.futures import ThreadPoolExecutor
         rtc = roundtrip_cases(ctx)
         pool = ThreadPoolExecutor(2)
-        f_files = pool.submit(files_collect, ctx.quick())
+        f_files = pool.submit(files_collect, ctx.quick(), ctx.scratch)
         f_rt = pool.submit(roundtrip_collect, rtc, ctx.scratch, ctx.quick())
         K.check_cases(ctx, "C12", cases, os.path.join(ctx.scratch, "real"), sanitize=True, memory_only=True)
-        files_judge(ctx, f_files.result())
+        files_judge(ctx, *f_files.result())
         roundtrip_judge(ctx, *f_rt.result())
         pool.shutdown()
         ctx.assume = ["level partial: the claim is 'the model's bounds arithmetic is proved and the sanitised binary agreed with the model "
@@ -121,13 +121,10 @@ def _where(report):
     return (m.group(1) or m.group(2)) if m else ""
 
 
-def files_collect(quick):
+def files_collect(quick, scratch):
     """Valid files (the repository's test-data: foreign writers, nested, v2 pages, dictionaries, byte arrays, thrift of
     every shape) read end to end under the sanitised build: no model here - the oracle is the property itself
     (no sanitizer report, no signal; a Python exception is allowed)."""
-    import subprocess
-    from concurrent.futures import ThreadPoolExecutor
-    root = C.shadow(sanitize=True)
     td = os.path.join(C.REPO, "test-data")
     paths = []
     for e in sorted(os.listdir(td)):
@@ -136,52 +133,27 @@ def files_collect(quick):
                                                                        or any(x.endswith((".parquet", ".parq")) for x in os.listdir(p)))):
             paths.append(p)
     modes = ["default"] if quick else ["default", "nonulls", "rowgroups"]
-    jobs = [(p, m) for p in paths for m in modes]
-    env = dict(os.environ)
-    env.update({"LD_PRELOAD": L.ASAN_LIB, "PYTHONDONTWRITEBYTECODE": "1", "OMP_NUM_THREADS": "1",
-                "ASAN_OPTIONS": "detect_leaks=0:abort_on_error=0:exitcode=77:allocator_may_return_null=1",
-                "UBSAN_OPTIONS": "halt_on_error=0:print_stacktrace=0"})
+    cases = [{"path": p, "mode": m} for m in modes for p in paths]
     worker = os.path.join(os.path.dirname(os.path.abspath(L.__file__)), "codec_files_worker.py")
-
-    def job(pm):
-        p, m = pm
-        try:
-            r = subprocess.run([C.PY, worker, root, p, m], env=env, stdout=subprocess.PIPE, stderr=subprocess.PIPE, timeout=300)
-            return pm, r.returncode, r.stdout.decode("utf-8", "replace"), r.stderr.decode("utf-8", "replace")
-        except subprocess.TimeoutExpired:
-            return pm, -999, "", "TIMEOUT"
-    with ThreadPoolExecutor(6 if quick else 8) as ex:
-        return list(ex.map(job, jobs))
+    real = L.run_real(cases, os.path.join(scratch, "files"), sanitize=True, nproc=4 if quick else 8, max_crashes=12,
+                      worker=worker, chunk=8, timeout=600)
+    return cases, real
 
 
-def files_judge(ctx, results):
-    for (p, m), rc, out, err in results:
-        rel = os.path.relpath(p, C.REPO)
-        case = {"stream": "files", "path": rel, "mode": m}
+def files_judge(ctx, cases, real):
+    for c, r in zip(cases, real):
+        rel = os.path.relpath(c["path"], C.REPO)
+        case = {"stream": "files", "path": rel, "mode": c["mode"]}
+        if r[0] == "skipped":
+            ctx.count("files not read (worker crashed too often)", 1)
+            continue
         ctx.case(case)
-        ctx.count("files stream", "read")
-        res = None
-        for line in out.split("\n"):
-            if line.startswith("@@RESULT "):
-                res = json.loads(line[9:])
-        report = None
-        for line in err.split("\n"):
-            if "AddressSanitizer" in line or "runtime error" in line:
-                report = line.strip()[:300]
-                break
-        frames = []
-        for line in err.split("\n"):
-            mm = __import__("re").search(r"#\d+ 0x[0-9a-f]+ in __pyx_[a-z]+_\d+fastparquet_\d+(?:cencoding|speedups)_(?:\d+)?(\w+)", line)
-            if mm and mm.group(1) not in frames:
-                frames.append(mm.group(1))
-        where = "<".join(frames[:2])
-        ctx.count("files stream outcome", (res or {}).get("status", "died") if not report else "sanitizer-report")
-        if report or rc != 0 or res is None:
-            kind = "asan" if (report and "AddressSanitizer" in report) else ("ubsan" if report else "crash")
-            ctx.fail({"component": "file-read", "stream": "files", "file": os.path.basename(rel), "mode": m, "kind": kind,
-                      "where": where},
-                     dict(case, replay="LD_PRELOAD=%s python harness/codec_files_worker.py <C.shadow(sanitize=True)> %s %s" % (L.ASAN_LIB, rel, m)),
-                     "reading a valid file under the sanitised build: exit status %r, %s" % (rc, report or err.strip()[-300:]))
+        ctx.count("files stream outcome", {"ok": "read", "exc": "python exception"}.get(r[0], "sanitizer report / signal"))
+        if r[0] in ("asan", "ubsan", "crash", "missing"):
+            where = "<".join((r[3] if len(r) > 3 and isinstance(r[3], list) else [])[:2])
+            ctx.fail({"component": "file-read", "stream": "files", "file": os.path.basename(rel), "mode": c["mode"],
+                      "kind": r[0], "where": where}, case,
+                     "reading a valid file under the sanitised build: %r" % (r[:3],))
 
 
 def replay(rep):
@@ -213,17 +185,17 @@ def replay_roundtrip(case):
 
 
 def replay_file(case):
-    import subprocess
-    root = C.shadow(sanitize=True)
-    env = dict(os.environ)
-    env.update({"LD_PRELOAD": L.ASAN_LIB, "ASAN_OPTIONS": "detect_leaks=0:exitcode=77:allocator_may_return_null=1",
-                "UBSAN_OPTIONS": "halt_on_error=0:print_stacktrace=1"})
-    worker = os.path.join(os.path.dirname(os.path.abspath(L.__file__)), "codec_files_worker.py")
-    r = subprocess.run([C.PY, worker, root, os.path.join(C.REPO, case["path"]), case["mode"]], env=env,
-                       stdout=subprocess.PIPE, stderr=subprocess.PIPE, timeout=600)
-    print(r.stdout.decode("utf-8", "replace")[-800:])
-    err = r.stderr.decode("utf-8", "replace")
-    print(err[:3000])
-    bad = r.returncode != 0 or "AddressSanitizer" in err or "runtime error" in err
-    print("=> exit status %d: property %s on this file" % (r.returncode, "FAILS" if bad else "holds"))
-    return 1 if bad else 0
+    import tempfile
+    import shutil
+    tmp = tempfile.mkdtemp(prefix="verif-C12-replay-", dir="/tmp")
+    try:
+        worker = os.path.join(os.path.dirname(os.path.abspath(L.__file__)), "codec_files_worker.py")
+        r = L.run_real([{"path": os.path.join(C.REPO, case["path"]), "mode": case["mode"]}], tmp, sanitize=True, nproc=1,
+                       worker=worker, timeout=600)[0]
+        print("file:", case["path"], "mode:", case["mode"])
+        print("real code under ASan+UBSan:", json.dumps(r)[:1200])
+        bad = r[0] in ("crash", "asan", "ubsan", "missing")
+        print("=> property %s on this file" % ("FAILS" if bad else "holds"))
+        return 1 if bad else 0
+    finally:
+        shutil.rmtree(tmp, ignore_errors=True)
